@@ -150,8 +150,64 @@ def hookRunIO (env : Env) (args : List String) (stdin : List String) (ctxs : Lis
   if args.head? == some Facts.c19ConfigFlag then ({ config := true }, [])
   else runFromIO env 0 stdin ctxs
 
+/-! ## The selection, seen from where the handler looks
+
+`hook::run` selects the current context by assigning `BINDING_CONTEXT_CURRENT_INDEX` (and
+`BINDING_CONTEXT_CURRENT_BINDING`); `context::jq` slices the binding-context file at that index on
+every call. A shell variable reaches the forks of the shell (`$(…)`, `( … )`, pipeline elements,
+background jobs) whether it is exported or not, but a NEW PROGRAM started by the handler — a helper
+script that sources the library again, `bash -c`, `env`, anything that is not bash — gets only the
+environment: the variable must be exported (a variable the hook process found in its own environment
+keeps the export attribute when it is assigned). -/
+
+/-- Where the code that looks at the current context runs. -/
+inductive Look where
+  /-- in the handler's shell or a fork of it -/
+  | shell
+  /-- in a new program started (execve) by the handler, directly or several programs deep -/
+  | exec
+  deriving Repr, DecidableEq
+
+def indexVar : String := "BINDING_CONTEXT_CURRENT_INDEX"
+
+/-- The value of the index variable found at `l` during the iteration for context number `i`;
+`inherited` = the value the hook process itself was started with (`none` under the operator).
+`none` = the variable is unset there. The facts: `select-index` is the statement
+`export BINDING_CONTEXT_CURRENT_INDEX="${i}"` of the loop, `c19RunExports` the variables `hook::run`
+exports. -/
+def indexSeen (inherited : Option Nat) (i : Nat) : Look → Option Nat
+  | .shell => if Facts.c19RunSteps.contains "select-index" then some i else inherited
+  | .exec =>
+    if Facts.c19RunSteps.contains "select-index" then
+      (if Facts.c19RunExports.contains indexVar || inherited.isSome then some i else none)
+    else inherited
+
+/-- The position of the context `context::jq` returns at `l`: the file sliced at the index variable;
+when the variable is unset the expansion in `context::jq` decides (`c19CtxIndexDefault`: `none` = a
+plain `${…}`, the call dies under `set -u`; `some d` = a `${…:-d}` default). -/
+def currentSeen (inherited : Option Nat) (i : Nat) (l : Look) : Option Nat :=
+  match indexSeen inherited i l with
+  | some n => some n
+  | none => Facts.c19CtxIndexDefault
+
+/-- Per invocation of a run: its index, the index variable and the context position seen from where
+that handler looks. -/
+def viewsOf (inherited : Option Nat) (looks : String → Look) (log : List (Nat × String)) :
+    List (Nat × Option Nat × Option Nat) :=
+  log.map fun (j, h) => (j, indexSeen inherited j (looks h), currentSeen inherited j (looks h))
+
 /-! ## The specification: the documented names and the property as a predicate on one observation -/
 namespace Spec
+
+/-- "… is invoked with that context selected as current", on what the handlers saw from wherever
+they looked: invocation number `n` (counted from the first context) finds the context at position
+`n` when it reads the current context, and no other index than `n` in the index variable. An entry is
+(index logged by the handler, index variable seen — `none` = unset there, context seen — `none` =
+reading the current context failed or returned nothing). -/
+def currentOk : Nat → List (Nat × Option Nat × Option Nat) → Bool
+  | _, [] => true
+  | n, (j, idx, ctx) :: rest =>
+    j == n && ctx == some n && (idx.isNone || idx == some n) && currentOk (n + 1) rest
 
 /-- The documented handler names for a context, most specific first, then `__main__`
 (literal names; nothing here comes from the generated table). -/
